@@ -3,10 +3,10 @@
 rule=$1; shift
 cd /verif
 for p in "$@"; do
-  git -C /repo checkout -q -- . ; git -C /repo clean -fdq internal 2>/dev/null
+  git -C /repo checkout -q -- . ; git -C /repo clean -fdq 2>/dev/null
   if ! git -C /repo apply $p 2>/dev/null; then echo "$p APPLY-FAIL"; continue; fi
   res=$(bin/jmescheck -rule $rule -dump 2>&1 | grep -v '^WARNING')
-  git -C /repo checkout -q -- .; git -C /repo clean -fdq internal 2>/dev/null
+  git -C /repo checkout -q -- .; git -C /repo clean -fdq 2>/dev/null
   n=$(echo "$res" | grep -cE '^(violated|undecided)')
   echo "== $p: $n fired; $(echo "$res" | tail -1)"
   echo "$res" | grep -E '^(violated|undecided)' | cut -c1-400 | head -${MAXL:-6}
